@@ -15,25 +15,29 @@ PRELUDE = """
 import nengo_spa as spa
 from nengo_spa.types import TScalar, TAnyVocab, TAnyVocabOfDim, TVocabulary, coerce_types
 from nengo_spa.exceptions import SpaTypeError
+import numpy as np
+from nengo_spa.types import Type
 DIMS = {dims}
-VOCS = [spa.Vocabulary(d) for d in DIMS]
+VOCS = [spa.Vocabulary(d if i != 2 else np.int64(d)) for i, d in enumerate(DIMS)]
 def mk(u):
     k, a = u
-    return {{'s': lambda: TScalar, 'a': lambda: TAnyVocab, 'd': lambda: TAnyVocabOfDim(a),
+    return {{'s': lambda: TScalar, 's2': lambda: Type('TScalar'), 'a': lambda: TAnyVocab, 'd': lambda: TAnyVocabOfDim(int(str(a))),
             'v': lambda: TVocabulary(VOCS[a])}}[k]()
 """
 
 
 def universe(tier):
-    dims = [16, 16, 32] if tier == "quick" else [16, 16, 32, 8]
+    # 300: a dimensionality above CPython's small-integer cache (equal ints are then different objects); vocabulary 2 is created
+    # with a NumPy integer dimensionality; "s2" is a scalar type equal to TScalar that is not the TScalar object itself
+    dims = [16, 16, 32, 300] if tier == "quick" else [16, 16, 32, 300, 8]
     ds = sorted(set(dims))
-    u = [("s", None), ("a", None)] + [("d", d) for d in ds] + [("v", i) for i in range(len(dims))]
+    u = [("s", None), ("s2", None), ("a", None)] + [("d", d) for d in ds] + [("v", i) for i in range(len(dims))]
     return dims, u
 
 
 def coq_ty(u):
     k, a = u
-    return {"s": "TScalar", "a": "TAny", "d": f"(TAnyDim {a})", "v": f"(TVoc {a})"}[k]
+    return {"s": "TScalar", "s2": "TScalar", "a": "TAny", "d": f"(TAnyDim {a})", "v": f"(TVoc {a})"}[k]
 
 
 def run(rep, tier, rng):
@@ -42,17 +46,21 @@ def run(rep, tier, rng):
     from nengo_spa.types import TAnyVocab, TAnyVocabOfDim, TScalar, TVocabulary, coerce_types
 
     dims, U = universe(tier)
-    vocs = [spa.Vocabulary(d) for d in dims]
+    import numpy as _np
+    from nengo_spa.types import Type
+    vocs = [spa.Vocabulary(d if i != 2 else _np.int64(d)) for i, d in enumerate(dims)]
     cdims = c.lst([str(d) for d in dims])
 
     def mk(u):
         k, a = u
         if k == "s":
             return TScalar
+        if k == "s2":
+            return Type("TScalar")
         if k == "a":
             return TAnyVocab
         if k == "d":
-            return TAnyVocabOfDim(a)
+            return TAnyVocabOfDim(int(str(a)))       # a fresh int object (beyond the small-integer cache: a different object each time)
         return TVocabulary(vocs[a])
 
     exprs, meta = [], []
@@ -60,8 +68,9 @@ def run(rep, tier, rng):
     for ua, ub in itertools.product(U, U):
         a, bb = mk(ua), mk(ub)
         obs = [a == bb, a != bb, a < bb, a <= bb, a > bb, a >= bb]
+        import numpy as _np2
         if not all(isinstance(o, bool) for o in obs):
-            obs = [bool(o) if isinstance(o, bool) else None for o in obs]
+            obs = [bool(o) if isinstance(o, (bool, _np2.bool_)) else None for o in obs]      # a NumPy bool is a truth value too
         exprs.append(f"check_cmp {cdims} {coq_ty(ua)} {coq_ty(ub)} {c.lst([c.b(o) for o in obs])}")
         meta.append(("cmp", ua, ub, obs))
         rep.case(("cmp", ua, ub), nontrivial=ua != ub, sample={"op": "compare", "a": ua, "b": ub, "observed": obs})
@@ -150,7 +159,13 @@ def run(rep, tier, rng):
     for strict in (True, False):
         vg = spa.Vocabulary(16, strict=strict, pointer_gen=np.random.RandomState(5))
         t_before = TVocabulary(vg)
-        h_before = hash(t_before)
+        hb = c.outcome(lambda: hash(t_before))
+        if hb[0] != "ok":
+            rep.violation(f"a vocabulary type is not hashable: hash(TVocabulary(v)) raised {hb[0]}: {str(hb[1])[:80]} (equal types must hash equally)",
+                          {"case": {"strict": strict},
+                           "python": "import nengo_spa as spa\nfrom nengo_spa.types import TVocabulary\nv = spa.Vocabulary(16)\nassert hash(TVocabulary(v)) == hash(TVocabulary(v))\n"})
+            continue
+        h_before = hb[1]
         table = {t_before: "found"}
         for step, nm in enumerate(["A", "B", "Cc"]):
             vg.populate(nm)
